@@ -1192,3 +1192,41 @@ func revStr(r *StickyRun) string {
 	}
 	return cf.Some(cf.Bool(r.Reverted))
 }
+
+// WidenWorld: a small honest group in which everybody will own something after the first plan (all members share topic
+// "t1", some also "t0"); Widen then lets one member additionally subscribe to a topic nobody else consumes.
+func WidenWorld(r *rand.Rand) *World {
+	w := &World{R: r, Topics: map[string][]int32{}, Members: map[string]*Member{}, Kind: "honest"}
+	n := 2 + r.Intn(3)
+	w.Topics["t1"] = Seq(n + r.Intn(4))
+	if r.Intn(2) == 0 {
+		w.Topics["t0"] = Seq(1 + r.Intn(4))
+	}
+	for i := 0; i < n; i++ {
+		id := fmt.Sprintf("m%d", i)
+		subs := []string{"t1"}
+		if _, ok := w.Topics["t0"]; ok && r.Intn(2) == 0 {
+			subs = append(subs, "t0")
+		}
+		w.Members[id] = &Member{ID: id, Topics: subs}
+	}
+	w.next = n
+	return w
+}
+
+// Widen: a topic appears that exactly one existing member subscribes to (it widens its subscription).
+func (w *World) Widen() {
+	r := w.R
+	name := "solo"
+	for i := 0; ; i++ {
+		if _, ok := w.Topics[name]; !ok {
+			break
+		}
+		name = fmt.Sprintf("solo%d", i)
+	}
+	w.Topics[name] = Seq(2 + r.Intn(5))
+	ids := w.memberList()
+	id := ids[r.Intn(len(ids))]
+	w.Members[id].Topics = append(w.Members[id].Topics, name)
+	w.Log = append(w.Log, "widen "+id+" "+name)
+}
